@@ -170,6 +170,7 @@ PROPS["C12"] = dict(
     builds=[dict(harness="rc_pattern"), dict(kind="fn", fn=lambda: __import__("vfuzz").build_target("patdiff"))],
     fuzz_extra=dict(target="patdiff", quick=dict(runs=120000), thorough=dict(secs=300, jobs=8)),
     engine="rc",
+    env={"TZ": "Asia/Kathmandu"},  # +05:45: local time is distinguishable from UTC (%{time} is the message's LOCAL time)
     level="exploration",
     quick=dict(cases=15000, shards=2, max_size=100, timeout=900),
     thorough=dict(cases=200000, shards=16, max_size=200, timeout=3000),
